@@ -35,7 +35,8 @@ def entries : List PollEntry := allBits.zipIdx.map fun (b, i) => ⟨i, b, ⟨b.h
 #guard (allOps.flatMap fun o => allRes.map fun r => [Ev.op o r]).all agrees
 #guard agrees (allOps.flatMap fun o => allRes.map fun r => Ev.op o r)
 #guard [[Ev.runBegin], [.cb 0], [.cb 12], [.cbEnd 0], [.cbEnd (-1)], [.cbEnd 7], [.ret 0], [.ret (-1)], [.ret 5], [.fault],
-        [.runBegin, .cb 1, .cbEnd 0, .ret 0]].all agrees
+        [.runBegin, .cb 1, .cbEnd 0, .ret 0], [.spinBegin], [.spinRet 0], [.spinRet (-1)], [.spinRet 7],
+        [.spinBegin, .cb 1, .op .done .ok, .cbEnd 0, .spinRet 0]].all agrees
 #guard ([PollOutcome.ok, .eintr, .stuck, .intr].flatMap fun out =>
         [[Ev.poll (-1) 0 [] out], [.poll 0 500 entries out], [.poll 2147483647 1 (entries.take 1) out],
          [.poll 1001 1000 [⟨3, {}, {}⟩] out]]).all agrees
